@@ -193,6 +193,22 @@ def gen_service(rng, tier):
         ops.append("manual warm prog=%s" % "".join("S%d" % rng.choice([7, 7, 7, 4, 5]) for _ in range(n)))
     elif rng.random() < 0.2:
         ops.append("manual warm prog=%s" % _prog(rng, rng.randint(1, 3), kind))
+    # callers whose request makes the wrapped service's `call()` itself panic (no future is ever returned; the caller
+    # catches the unwind and the limiter stays in use): in none / some / many of the arrivals of a case
+    cpp = rng.choice([0.0, 0.0, 0.1, 0.25, 0.5])
+
+    def cp():
+        return " callpanic=1" if cpp > 0 and rng.random() < cpp else ""
+
+    def after_cp(x):
+        # reads right after the unwind: the slot must be free again, readiness judged by the running calls alone
+        if x:
+            r2 = rng.random()
+            if r2 < 0.6:
+                ops.append("probe in_flight")
+            if r2 < 0.3 or r2 > 0.8:
+                ops.append("probe ready")
+
     waiting = []          # handles whose last scripted inner answer was `pending`
     ncall = rng.randint(2, 12)
     pending = list(range(1, ncall + 1))
@@ -216,8 +232,10 @@ def gen_service(rng, tier):
                 if rng.random() < 0.7:
                     ops.append("probe limit")
                 lat = rng.choice([0, 1, 3, 10, rng.randint(0, 12)])
-                ops.append("arrive %d inner=%d:%s h=%d%s%s" % (c, lat, pick_outcome(rng, 6, 2, 1, 1), hd,
-                                                             "" if a == "r" and rng.random() < 0.5 else " rdy=" + a, k))
+                x = cp()
+                ops.append("arrive %d inner=%d:%s h=%d%s%s%s" % (c, lat, pick_outcome(rng, 6, 2, 1, 1), hd,
+                                                               "" if a == "r" and rng.random() < 0.5 else " rdy=" + a, k, x))
+                after_cp(x)
                 arrived.append(c)
                 if k:
                     keepers.append(c)
@@ -249,7 +267,9 @@ def gen_service(rng, tier):
             if rng.random() < 0.7:
                 ops.append("probe limit")
             k = kp()
-            ops.append("arrive %d inner=%d:%s%s" % (c, lat, out, k))
+            x = cp()
+            ops.append("arrive %d inner=%d:%s%s%s" % (c, lat, out, k, x))
+            after_cp(x)
             arrived.append(c)
             if k:
                 keepers.append(c)
@@ -261,7 +281,9 @@ def gen_service(rng, tier):
         elif r < 0.38 and checked:
             c = checked.pop(rng.randrange(len(checked)))
             k = kp()
-            ops.append("arrive %d inner=%d:%s%s" % (c, rng.choice([0, 1, 4]), pick_outcome(rng, 6, 2, 1, 1), k))
+            x = cp()
+            ops.append("arrive %d inner=%d:%s%s%s" % (c, rng.choice([0, 1, 4]), pick_outcome(rng, 6, 2, 1, 1), k, x))
+            after_cp(x)
             arrived.append(c)
             if k:
                 keepers.append(c)
@@ -330,6 +352,16 @@ def gen_service(rng, tier):
             keepers = []
             ops.append("probe in_flight")
             ops.append("probe ready")
+        if cpp > 0 and rng.random() < 0.6:
+            # nothing is running: a run of callers whose inner `call()` panics (as many as the limit allows and more,
+            # some through a persistent handle) must leave zero in flight and readiness granted
+            for i in range(rng.choice([1, 2, 3, 5])):
+                ops.append("arrive %d inner=0:ok callpanic=1%s" % (200 + i, " h=%d" % rng.randint(1, 3) if rng.random() < 0.3 else ""))
+                if rng.random() < 0.4:
+                    ops.append("probe in_flight")
+            ops.append("probe in_flight")
+            ops.append("probe limit")
+            ops.append("probe ready")
         nb = rng.choice([1, 2, 3, 6])
         quick = keepp > 0 and rng.random() < 0.6
         for i in range(nb):
@@ -343,7 +375,7 @@ def gen_service(rng, tier):
                 if rng.random() < 0.5:
                     ops.append("probe in_flight")
             else:
-                ops.append("arrive %d inner=1000:ok%s" % (100 + i, kp()))
+                ops.append("arrive %d inner=1000:ok%s%s" % (100 + i, kp(), cp()))
         ops.append("probe in_flight")
         ops.append("probe ready")
     if keepers:
@@ -456,12 +488,15 @@ def mon_bounds(case, lines, meta):
 def mon_inflight(case, lines, meta):
     """in_flight() equals the number of inner calls started and not finished / panicked / dropped, at every
     probe; in particular 0 once nothing is running — a call stops counting when it completes or fails, also while
-    the caller keeps the finished future object alive"""
+    the caller keeps the finished future object alive; a call whose inner `call()` panicked before returning a future
+    (`result c panic` without an `inner_call`) never started an inner call and must not count either"""
     if not _is_service(case):
         return None
     live = set()
     hd = _Held(case, meta)
     rounds = 0
+    called = set()
+    cpanics = []
     for i, l in enumerate(lines):
         _, w = tparse(l)
         hd.before(i)
@@ -470,16 +505,21 @@ def mon_inflight(case, lines, meta):
         hd.after(w)
         if w[0] == "inner_call":
             live.add(w[2])
+            called.add(w[1])
         elif w[0] in ("inner_done", "inner_drop"):
             live.discard(w[2])
         elif w[0] == "th" and w[1] == "0":
             rounds += 1
+        elif w[0] == "result" and w[2] == "panic" and w[1] not in called:
+            cpanics.append(w[1])
         elif w[0] == "probe" and w[1] == "in_flight":
             if not w[3].isdigit() or int(w[3]) != len(live):
-                return "line %d: in_flight() = %s but %d inner calls are started and not finished/dropped%s%s%s" % (
+                return "line %d: in_flight() = %s but %d inner calls are started and not finished/dropped%s%s%s%s" % (
                     i, w[3], len(live), " (quiescent)" if not live else "", hd.note(),
                     " [after %d round(s) of threads using clones of the limiter: every call they started has completed, "
-                    "failed, panicked or been dropped]" % rounds if rounds else "")
+                    "failed, panicked or been dropped]" % rounds if rounds else "",
+                    " [the inner service's call() itself panicked for caller(s) %s: a call that panicked is not in flight]"
+                    % ",".join(cpanics) if cpanics else "")
     return None
 
 
@@ -497,6 +537,13 @@ def mon_ready(case, lines, meta):
     via = _via_handle(case)
     hready = set()         # handles whose most recent poll_ready answered Ready (judged at that poll)
     hd = _Held(case, meta)
+    called = set()
+    cpanics = []           # callers whose inner `call()` itself panicked (no inner call was started)
+
+    def note():
+        return hd.note() + (" [the inner service's call() itself panicked for caller(s) %s: a call that panicked is not in flight]"
+                            % ",".join(cpanics) if cpanics else "")
+
     for i, l in enumerate(lines):
         _, w = tparse(l)
         hd.before(i)
@@ -507,7 +554,8 @@ def mon_ready(case, lines, meta):
             return "line %d: poll_ready returned Pending without waking the task (%s)" % (i, l)
         if w[0] in ("step", "skip", "th"):
             limit = None       # inside / after a round of threads
-        elif w[0] == "inner_call":
+        elif w[0] == "inner_call" or (w[0] == "result" and w[2] == "panic" and w[1] not in called):
+            # `call()` was made on the strength of a readiness check (an inner `call()` that panics starts no inner call)
             c = w[1]
             if c in prechecked:
                 prechecked.discard(c)
@@ -515,7 +563,11 @@ def mon_ready(case, lines, meta):
                 hready.discard(via[c])
             elif limit is not None and len(live) >= limit:
                 return "line %d: caller %s admitted by a readiness check with %d calls in flight, limit %d" % (i, c, len(live), limit)
-            live.add(w[2])
+            if w[0] == "inner_call":
+                live.add(w[2])
+                called.add(c)
+            else:
+                cpanics.append(c)
         elif w[0] == "inner_done":
             live.discard(w[2])
             if w[3] != "panic":
@@ -530,12 +582,12 @@ def mon_ready(case, lines, meta):
             if w[1] in via:
                 hready.discard(via[w[1]])
             if w[2] == "notready" and limit is not None and len(live) < limit:
-                return "line %d: caller %s refused readiness with %d calls in flight, limit %d%s" % (i, w[1], len(live), limit, hd.note())
+                return "line %d: caller %s refused readiness with %d calls in flight, limit %d%s" % (i, w[1], len(live), limit, note())
         elif w[0] == "check":
             if w[2] == "ready":
                 prechecked.add(w[1])
             if limit is not None and (w[2] == "ready") != (len(live) < limit):
-                return "line %d: ahead-of-time readiness check of %s answered %s with %d calls in flight, limit %d%s" % (i, w[1], w[2], len(live), limit, hd.note())
+                return "line %d: ahead-of-time readiness check of %s answered %s with %d calls in flight, limit %d%s" % (i, w[1], w[2], len(live), limit, note())
         elif w[0] == "ready":
             # one poll_ready of the persistent handle w[1]
             if w[2] == "ready":
@@ -547,10 +599,10 @@ def mon_ready(case, lines, meta):
                 hready.discard(w[1])
                 if w[2] == "refused" and limit is not None and len(live) < limit:
                     return "line %d: poll_ready of handle %s refused for capacity with %d calls in flight, limit %d%s" % (
-                        i, w[1], len(live), limit, hd.note())
+                        i, w[1], len(live), limit, note())
         elif w[0] == "probe" and w[1] == "ready":
             if limit is not None and (w[3] == "1") != (len(live) < limit):
-                return "line %d: probe caller readiness = %s with %d calls in flight, limit %d%s" % (i, w[3], len(live), limit, hd.note())
+                return "line %d: probe caller readiness = %s with %d calls in flight, limit %d%s" % (i, w[3], len(live), limit, note())
     return None
 
 
@@ -591,8 +643,23 @@ def transitions(case, lines, meta=None):
     cur_t = None           # thread whose turn it is (inside a round of threads)
     relp = set()           # threads between "end of the inner call logged" and the release of the guard
     in_round = False
+    called = set()         # callers for which an inner call was started
+    after_cpanic = False   # an inner `call()` has panicked earlier in this case
     for i, l in enumerate(lines):
         _, w = tparse(l)
+        if w and w[0] == "inner_call":
+            called.add(w[1])
+            if after_cpanic:
+                tags.append("A:admitted-after-call-panic")
+        if w and w[0] == "result" and w[2] == "panic" and w[1] not in called:
+            tags.append("A:call-panic")
+            if w[1] in via:
+                tags.append("A:call-panic-through-handle")
+            if live:
+                tags.append("A:call-panic-while-running")
+            if last_limit is not None and len(live) + 1 == last_limit:
+                tags.append("A:call-panic-in-last-slot")
+            after_cpanic = True
         if w and w[0] in ("step", "skip"):
             tags.append("T:" + w[0])
             if w[0] == "step":
@@ -700,6 +767,8 @@ ALL_TR = ["L:kind-aimd", "L:kind-vegas", "L:step", "L:skip", "L:switch", "L:warm
           "A:handle-ready", "A:handle-refused", "A:handle-pending", "A:handle-error", "A:call-through-handle",
           "A:result-notready-inner", "A:result-notready-error",
           "A:handle-refused-after-inner-pending", "A:handle-ready-after-inner-pending",
+          "A:call-panic", "A:call-panic-through-handle", "A:call-panic-while-running", "A:call-panic-in-last-slot",
+          "A:admitted-after-call-panic",
           "T:step", "T:skip", "T:switch", "T:refused", "T:two-releases-pending", "T:leftover-dropped"]
 
 LEVEL_NOTE = ("Trusted: Lean kernel; the transcription of aimd.rs / algorithm.rs (one model step per atomic operation, in program order) in "
@@ -742,7 +811,10 @@ SPECS = {
                 "clones of the service under the baton scheduler (in 40 % of the cases, 60 % of those with limits 4..10): programs of acquire "
                 "(poll_ready+call; the call will succeed / fail / panic), complete-oldest, drop-oldest, in_flight(), direct feedback; schedules random / "
                 "turn by turn / runs, or all acquisitions first and then the releases turn by turn so that releases of different threads overlap; "
-                "`probe in_flight` after every round, also with nothing else running. distinct = distinct implementation log; non-trivial = an interleaving in which the schedule switches between "
+                "`probe in_flight` after every round, also with nothing else running. Callers whose request makes the wrapped service's call() itself "
+                "panic before it returns a future (`arrive … callpanic=1`, in 0 / 10 / 25 / 50 % of the arrivals of a case: fresh clones, clones "
+                "checked ahead of time, persistent handles, the final burst; at every load level incl. the last free slot), followed by in_flight / "
+                "ready reads, and a run of 1-5 of them at quiescence. distinct = distinct implementation log; non-trivial = an interleaving in which the schedule switches between "
                 "running threads (limit) / a refusal, a cancelled running call, a panic or an ahead-of-time check (service)",
         "level_text": "Theorems TR.Props.C13.{limit_in_bounds, limit_in_bounds_final, limit_in_bounds_rounds, limit_is_last_store, vegas_choice_arbitrary, "
                       "seq_limit_in_bounds, aimd_budget_controller_in_bounds}: for every configuration with min <= max and decrease factor <= 1, AIMD and "
@@ -763,6 +835,10 @@ SPECS = {
                       "threads_in_flight_exact_within_history, threads_in_flight_matches_log, threads_limit_in_bounds}: clones on any number of threads, "
                       "all programs, all schedules of the atomic steps (fetch_add at admission, fetch_sub at release): in_flight = number of live guards in "
                       "every reachable state, 0 once no thread holds a call. "
+                      "{call_panic_frees_slot, call_panic_counted_then_released}: a call whose inner Service::call panics synchronously (no future is "
+                      "ever returned) is counted while inner.call runs and released by the unwind: counter, running calls, readiness answer, algorithm, "
+                      "mirror and serial numbers are what they were before the arrival; TR.Mutants.AdaptiveGuardAfterCall (guard built after inner.call) "
+                      "with its kernel-checked witness (limit 2, two such panics => in_flight = 2, nothing running, readiness refused). "
                       "TR.Mutants.AdaptiveSkipRecheck (capacity check only at a handle's first poll) and TR.Mutants.AdaptiveReleaseLoadStore (guard release "
                       "as load+store: lost release under the schedule load,load,store,store) with kernel-checked witnesses (same file as AdaptiveNoGuard). "
                       "TR.Mutants.AdaptiveNoGuard: the pinned service (no guard) "
@@ -782,6 +858,8 @@ SPECS = {
                         "usize/u64 modelled as unbounded Nat; values below 2^53",
                         "one poll of one call future is atomic for the single-threaded callers; in the rounds of threads the yield points are the "
                         "hooked atomic operations and the operation boundaries (thread-local code between two of them is atomic)",
-                        "the inner service's readiness answers are scripted per poll_ready (ready / pending with a wake-up / error)"],
+                        "the inner service's readiness answers are scripted per poll_ready (ready / pending with a wake-up / error)",
+                        "a synchronous panic of the inner call() is scripted per request and caught by the caller (catch_unwind around Service::call); "
+                        "such calls are made by the single-threaded callers only, not inside the rounds of threads"],
     },
 }
